@@ -2589,7 +2589,7 @@ func (p *parser) insertStmtsAfterSuperCall(body *js_ast.FnBody, stmtsToInsert []
 func findFirstTopLevelSuperCall(expr js_ast.Expr, superCtorRef ast.Ref) (js_ast.Expr, logger.Loc, *js_ast.ECall, js_ast.Expr) {
 	if call, ok := expr.Data.(*js_ast.ECall); ok {
 		if target, ok := call.Target.Data.(*js_ast.EIdentifier); ok && target.Ref == superCtorRef {
-			call.Target.Data = js_ast.ESuperShared
+			// (the caller turns "__super()" back into "super()" once it has decided to use this call)
 			return js_ast.Expr{}, expr.Loc, call, js_ast.Expr{}
 		}
 	}
